@@ -1029,7 +1029,7 @@ def rule_ids(rep: Report, rid_order="C11.order", rid_src="C11.src") -> None:
         for n, ctx in draws:
             rep.ob(rid_src, f"{p}: every id drawn becomes the id of a node in the returned value", n[1] in used, **_kw(b, n[2]),
                    expected="draw flows into a returned 'id' field", found="drawn id is discarded" if n[1] not in used else "used")
-            rep.ob(rid_src, f"{p}: ids come from the builder's own id_generator", n[3] == ("attr", b.selft, "id_generator"), **_kw(b, n[2]),
+            rep.ob(rid_src, f"{p}: ids come from the builder's own id_generator", n[3] == ("attr", b.selft, N.idgen_attr(BQ)), **_kw(b, n[2]),
                    expected="self.id_generator", found=fmt(n[3], I) if n[3] else None)
         mr = _main_return(b, br)
         d = _dict_of(b, mr[0]) if mr else None
